@@ -95,6 +95,8 @@ def run(ctx, rep):
         roots = all_roots(fx, rep) if not feat else [p for p in all_roots(fx, rep)]
         policy = dict(a_size=True)
         seen, n_sites, n_lossy = CR.run_census(fx, rep, "C13.census", roots, policy, sfx=sfx, cast_policy=cast_policy)
+        import recursion as RC
+        RC.check_recursion(fx, rep, "C13.rec" + sfx, seen)
         if not feat:
             rep.floor("C13.census", n_sites, 24, "census sites reachable from the API (37 counted on the repaired tree; a refactor may remove some)")
             rep.floor("C13.casts", n_lossy, 8, "narrowing casts on the write path (17 counted; a refactor may remove some)")
